@@ -56,6 +56,11 @@ func drawC01(t *rapid.T, x *X) *Case {
 	if gspec.U(t, 4, "fname") == 0 {
 		c.Opts.Filename = "f.txt"
 	}
+	// (a call is one-shot, see drawBase)
+	if gspec.U(t, 25, "poisonbefore") == 0 {
+		c.Opts.PoisonBefore = uint64(3 + gspec.U(t, 40, "poisonbudget"))
+	}
+	c.Opts.CallAfter = gspec.U(t, 8, "callafter") == 0
 	switch gspec.U(t, 10, "entrypoint") {
 	case 0:
 		c.Opts.Via = "reader"
